@@ -4,7 +4,7 @@ import numpy as np
 from harness import common as C
 from harness import layouts as L
 
-ANCHORS = ["T7pipe", "T7unseen", "T7chain"]
+ANCHORS = ["T7pipe", "T7unseen", "T7chain", "T9text"]
 MODELS = ["NdCase", "Pipe", "PipeCase", "Concat", "ConcatCase"]
 RULE = ("layouts enumerated: container (DataArray/Dataset/list) x 1..3 sample dims x 1..3 feature dims x dimension orders x index kind per "
         "dimension (ascending, unsorted, string, datetime, MultiIndex) x Dataset variables with equal/different dimension sets x extra "
